@@ -77,6 +77,33 @@ type TB struct {
 	n    int
 	ufs  map[string]*UFDecl
 	syms map[string]Sort
+	low  map[int]bool // BV32 terms known to denote input-world object ids (< lowLimit)
+}
+
+const lowLimit = 0x80000000
+
+// MarkLow records that t is an object id of the input world.
+func (tb *TB) MarkLow(t *Term) {
+	if t.Sort.K == KBV && t.Sort.W == 32 && t.Op != "bv" {
+		tb.low[t.id] = true
+	}
+}
+
+func (tb *TB) isLow(t *Term) bool {
+	if t.Op == "bv" {
+		return t.Sort.W == 32 && t.Val.Cmp(big.NewInt(lowLimit)) < 0
+	}
+	if tb.low[t.id] {
+		return true
+	}
+	if t.Op == "ite" {
+		return tb.isLow(t.Args[1]) && tb.isLow(t.Args[2])
+	}
+	return false
+}
+
+func isHighConst(t *Term) bool {
+	return t.Op == "bv" && t.Sort.W == 32 && t.Val.Cmp(big.NewInt(lowLimit)) >= 0
 }
 
 type UFDecl struct {
@@ -86,7 +113,7 @@ type UFDecl struct {
 }
 
 func NewTB() *TB {
-	return &TB{tab: map[string]*Term{}, ufs: map[string]*UFDecl{}, syms: map[string]Sort{}}
+	return &TB{tab: map[string]*Term{}, ufs: map[string]*UFDecl{}, syms: map[string]Sort{}, low: map[int]bool{}}
 }
 
 func (tb *TB) mk(t *Term) *Term {
@@ -353,6 +380,20 @@ func (tb *TB) Eq(a, b *Term) *Term {
 		}
 	}
 	if a.Sort.K == KBV {
+		if isHighConst(a) && tb.isLow(b) || isHighConst(b) && tb.isLow(a) {
+			return tb.False()
+		}
+		// push a comparison with a constant into an ite when both sides decide
+		for _, pr := range [][2]*Term{{a, b}, {b, a}} {
+			x, k := pr[0], pr[1]
+			if x.Op == "ite" && k.Op == "bv" {
+				e1 := tb.Eq(x.Args[1], k)
+				e2 := tb.Eq(x.Args[2], k)
+				if e1.IsConst() && e2.IsConst() || e1.IsConst() && e1.IsFalse() || e2.IsConst() && e2.IsFalse() {
+					return tb.Ite(x.Args[0], e1, e2)
+				}
+			}
+		}
 		ba, ca := tb.splitAdd(a)
 		bb, cb := tb.splitAdd(b)
 		if ba == bb && ba != nil {
@@ -646,6 +687,12 @@ func (tb *TB) Ult(a, b *Term) *Term {
 	if a == b {
 		return tb.False()
 	}
+	if isHighConst(b) && tb.isLow(a) {
+		return tb.True()
+	}
+	if isHighConst(a) && tb.isLow(b) {
+		return tb.False()
+	}
 	if b.Op == "bv" && b.Val.Sign() == 0 {
 		return tb.False()
 	}
@@ -661,6 +708,12 @@ func (tb *TB) Ult(a, b *Term) *Term {
 func (tb *TB) Ule(a, b *Term) *Term {
 	if a == b {
 		return tb.True()
+	}
+	if isHighConst(b) && tb.isLow(a) {
+		return tb.True()
+	}
+	if isHighConst(a) && tb.isLow(b) {
+		return tb.False()
 	}
 	if a.Op == "bv" && a.Val.Sign() == 0 {
 		return tb.True()
